@@ -379,4 +379,97 @@ example : (remove ex3 2).next 2 = 3 ∧ (remove ex3 2).prev 2 = 1 := by decide
 member corrupts it — forwards the target then holds [1], backwards [3] (no libuv call site does
 this: every `uv__queue_move` target is a local variable) -/
 example : foreach (move ex3 0 2) 2 9 = [1] ∧ foreachBack (move ex3 0 2) 2 9 = [3] := by decide
+/-! ### the loop-watcher phase (`src/unix/loop-watcher.c:47-60`) at pointer level
+
+`uv__run_idle/prepare/check` detach the loop's list onto a local head (`move_ring`), then repeatedly pop the
+local head's first member, append it to the loop's list and call it back; callbacks may stop (remove) any
+watcher — visited or not — and start (insert at the head of the loop's list) inactive ones.  `Two` is
+the two-ring state; the three lemmas show that every C step is the list step the `Loop` model performs
+(`LoopRun`'s watcher phase works on exactly these two lists). -/
+
+def Two (m : Mem) (lh tmp : Nat) (L T : List Nat) : Prop :=
+  Ring m lh L ∧ Ring m tmp T ∧ ∀ x ∈ lh :: L, x ∉ tmp :: T
+
+/-- the detaching `uv__queue_move(&loop->name_handles, &queue)` -/
+theorem detach_refines {m : Mem} {lh tmp : Nat} {L : List Nat} (hr : Ring m lh L) (ht : tmp ∉ lh :: L) :
+    Two (move m lh tmp) lh tmp [] L := by
+  obtain ⟨h1, h2⟩ := move_ring hr ht
+  refine ⟨h1, h2, ?_⟩
+  intro x hx
+  simp only [List.mem_cons, List.not_mem_nil, or_false] at hx
+  subst hx
+  have := hr.2
+  simp only [List.nodup_cons, List.mem_cons] at this ht ⊢
+  grind
+
+/-- one round of the loop body: `q = head(&queue); remove(q); insert_tail(&loop->name_handles, q)` -/
+theorem pop_refines {m : Mem} {lh tmp a : Nat} {L T : List Nat} (h : Two m lh tmp L (a :: T)) :
+    head m tmp = a ∧ Two (insertTail (remove m a) lh a) lh tmp (L ++ [a]) T := by
+  obtain ⟨hL, hT, hd⟩ := h
+  have hnd := hT.2
+  have hda : ∀ x ∈ lh :: L, x ≠ a ∧ x ≠ tmp ∧ x ∉ T := by
+    intro x hx; have := hd x hx; simp only [List.mem_cons] at this; grind
+  have h1 : Ring (remove m a) tmp T := by
+    have := (remove_ring (l1 := []) hT).1; simpa using this
+  have h2 : Ring (remove m a) lh L := remove_other hT (by simp) hL hd
+  have ha : a ∉ lh :: L := fun hx => (hda a hx).1 rfl
+  refine ⟨head_refines hT, insertTail_ring h2 ha, insertTail_other h2 h1 ?_, ?_⟩
+  · intro x hx
+    simp only [List.nodup_cons, List.mem_cons] at hnd hx
+    constructor
+    · intro hx'; have := hda x hx'; grind
+    · grind
+  · intro x hx
+    have hx' : x ∈ lh :: L ∨ x = a := by
+      have : lh :: (L ++ [a]) = (lh :: L) ++ [a] := rfl
+      rw [this] at hx; simp only [List.mem_append, List.mem_singleton] at hx; exact hx
+    simp only [List.nodup_cons, List.mem_cons] at hnd ⊢
+    rcases hx' with hx' | rfl
+    · have := hda x hx'; grind
+    · grind
+
+/-- `uv_idle_stop` etc. from a callback: `uv__queue_remove(&handle->queue)` of an active watcher, wherever
+it currently is (already re-appended to the loop's list, or still waiting on the local head) -/
+theorem stop_refines {m : Mem} {lh tmp q : Nat} {L T : List Nat} (h : Two m lh tmp L T) (hq : q ∈ L ∨ q ∈ T) :
+    Two (remove m q) lh tmp (L.erase q) (T.erase q) := by
+  obtain ⟨hL, hT, hd⟩ := h
+  have hsub1 : ∀ x ∈ lh :: L.erase q, x ∈ lh :: L := by
+    intro x hx; simp only [List.mem_cons] at hx ⊢
+    rcases hx with e | hx
+    · exact Or.inl e
+    · exact Or.inr (List.mem_of_mem_erase hx)
+  have hsub2 : ∀ x ∈ tmp :: T.erase q, x ∈ tmp :: T := by
+    intro x hx; simp only [List.mem_cons] at hx ⊢
+    rcases hx with e | hx
+    · exact Or.inl e
+    · exact Or.inr (List.mem_of_mem_erase hx)
+  have hdis : ∀ x ∈ lh :: L.erase q, x ∉ tmp :: T.erase q := fun x hx hx' => hd x (hsub1 x hx) (hsub2 x hx')
+  have hd' : ∀ x ∈ tmp :: T, x ∉ lh :: L := fun x hx hx' => hd x hx' hx
+  rcases hq with hq | hq
+  · have hqT : q ∉ T := fun hx => hd q (by simp [hq]) (by simp [hx])
+    rw [List.erase_of_not_mem hqT] at hdis ⊢
+    exact ⟨remove_erase hL hq, remove_other hL hq hT hd', hdis⟩
+  · have hqL : q ∉ L := fun hx => hd q (by simp [hx]) (by simp [hq])
+    rw [List.erase_of_not_mem hqL] at hdis ⊢
+    exact ⟨remove_other hT hq hL hd, remove_erase hT hq, hdis⟩
+
+/-- `uv_idle_start` etc. from a callback: `uv__queue_insert_head(&loop->name_handles, &handle->queue)` of an
+inactive watcher — it lands on the loop's list, never on the local head, so it is not called in this phase -/
+theorem start_refines {m : Mem} {lh tmp q : Nat} {L T : List Nat} (h : Two m lh tmp L T)
+    (hq : q ∉ lh :: L ∧ q ∉ tmp :: T) : Two (insertHead m lh q) lh tmp (q :: L) T := by
+  obtain ⟨hL, hT, hd⟩ := h
+  refine ⟨insertHead_ring hL hq.1, insertHead_other hL hT ?_, ?_⟩
+  · intro x hx; exact ⟨fun hx' => hd x hx' hx, fun e => hq.2 (e ▸ hx)⟩
+  · intro x hx
+    simp only [List.mem_cons] at hx
+    rcases hx with e | e | hx
+    · exact hd x (by simp [e])
+    · subst e; exact hq.2
+    · exact hd x (by simp [hx])
+
+example : Two (move ex3 0 5) 0 5 [] [1, 2, 3] := detach_refines (by
+  have h0 := init_ring ⟨fun _ => 99, fun _ => 99⟩ 0
+  exact insertTail_ring (insertTail_ring (insertTail_ring h0 (q := 1) (by decide)) (q := 2) (by decide)) (q := 3) (by decide))
+  (by decide)
+
 end UvModel.Queue
